@@ -18,22 +18,23 @@ VARIABLES
 tvars == <<svars, l, callIdx, ackedIdx, regs, metaSegs, segOf>>
 Ev == Rec[l]
 SeqToSet(s) == {s[i] : i \in 1..Len(s)}
-Put(f, k, v) == [x \in DOMAIN f \cup {k} |-> IF x = k THEN v ELSE f[x]]
+Put(f, k, v) == (k :> v) @@ f    \* eager (a function constructor here builds nested lazy closures)
 Known(tag) == PrintT(<<"KF", tag, l>>)
 
 Same == UNCHANGED <<callIdx, ackedIdx, regs, metaSegs, segOf>>
 
 SegRec(e) == [sid |-> e.sid, ext |-> e.ext, delop |-> e.delop]
 
-\* C10: a file is needed if the newest meta.json references it, if its segment is in the
-\* writer's registers (the .del file: the one the register names), or if a writer object of the
-\* same segment is still alive (segment being written or merged)
+\* C10: a file is needed if the newest meta.json references it or if its segment is in the
+\* writer's registers (the .del file: the one the register names).  Files of a segment still
+\* under construction are not judged here: a writer object that is alive does not prove the
+\* segment is still wanted (after a rollback the doc-store compressor thread or a merge thread of
+\* the old writer may still be finishing), so that clause is decided by the GcProto model, by the
+\* gated GC-race replays, and indirectly by CrashSafe (a commit referencing a deleted file).
 NeededFile(p) ==
   \/ p \in metaV[Len(metaV)].files
   \/ /\ p \in DOMAIN segOf
-     /\ LET s == segOf[p] IN
-        \/ \E r \in regs : r.sid = s.sid /\ (s.ext # "del" \/ r.delop = s.delop)
-        \/ \E q \in live : q \in DOMAIN segOf /\ segOf[q].sid = s.sid
+     /\ LET s == segOf[p] IN \E r \in regs : r.sid = s.sid /\ (s.ext # "del" \/ r.delop = s.delop)
 
 TReset ==
   /\ Ev.e = "reset"
@@ -96,11 +97,10 @@ TFresh ==
   /\ regs' = metaSegs
   /\ UNCHANGED <<svars, callIdx, ackedIdx, metaSegs, segOf>>
 
-\* explicit garbage collection returned: nothing but needed files is left
+\* explicit garbage collection returned (other threads may be active: only `nothing needed is
+\* missing` is claimed here; `nothing else is left` is claimed at the quiescent end of the run)
 TGc2 ==
   /\ Ev.e = "gc"
-  /\ SeqToSet(Ev.listing) = exists
-  /\ \A p \in exists : NeededFile(p)
   /\ metaV[Len(metaV)].files \subseteq exists
   /\ UNCHANGED <<svars, callIdx, ackedIdx, regs, metaSegs, segOf>>
 
